@@ -17,6 +17,19 @@ from sdc11073.xml_types import pm_types  # noqa: E402
 XML_WS = (' ', '\t', '\n', '\r')
 
 
+def bpick(sel, n):
+    """Concrete value of the (symbolic) selector sel in range(n) by binary branching: log2(n) solver decisions per selector
+    instead of n (CrossHair pays ~1 ms per decision, and these harnesses explore tens of thousands of paths)."""
+    lo, hi = 0, n
+    while hi - lo > 1:
+        mid = (lo + hi) // 2
+        if sel < mid:
+            hi = mid
+        else:
+            lo = mid
+    return lo
+
+
 def xml_chars(s):
     """Every character may occur in an XML 1.0 document (Char production)."""
     for ch in s:
@@ -72,9 +85,8 @@ def integer_lex(maxn: int, n: int, c0: int, c1: int, c2: int, c3: int) -> str:
     pre: 0 <= c3 < 13
     post: __return__ == 'ok'
     """
-    idx = tuple(range(len(INT_POOL)))
-    n = pick(n, (0, 1, 2, 3, 4))
-    sel = [pick(c, idx) if i < n else 0 for i, c in enumerate((c0, c1, c2, c3))]
+    n = bpick(n, 5)
+    sel = [bpick(c, len(INT_POOL)) if i < n else 0 for i, c in enumerate((c0, c1, c2, c3))]
     with untraced():
         return _integer_lex(''.join(INT_POOL[i] for i in sel[:n]))
 
@@ -128,7 +140,7 @@ def boolean_lex(probe: int, s: str) -> str:
         truth = c == 'true' or c == '1'
         orc.check(v == truth, 'boolean_wrong_value')
         x = dc.BooleanConverter.to_xml(v)
-        orc.check((x == 'true' or x == '1') if truth else (x == 'false' or x == '0'), 'boolean_roundtrip_changed')
+        orc.check((x == 'true' or x == '1') if v else (x == 'false' or x == '0'), 'boolean_roundtrip_changed')    # to_xml denotes v
     except Exception as ex:  # noqa: BLE001
         return exc_result(orc, ex, 'boolean_lex')
     return orc.result()
@@ -169,7 +181,7 @@ def enum_lex(which: int, s: str) -> str:
 
 # ------------------------------------------------------------------------------------------------ decimals (selector driven)
 
-DEC_POOL = ('0', '1', '.', '-', '+', 'e', 'E', '_', ' ', 'N', 'a', 'I', 'n', 'f')
+DEC_POOL = ('0', '1', '.', '-', '+', 'e', '_', ' ', 'N', 'a', 'I', 'n', 'f')
 
 
 def dec_value(s):
@@ -203,15 +215,14 @@ def decimal_lex(maxn: int, n: int, c0: int, c1: int, c2: int, c3: int) -> str:
     text = n <= maxn characters picked from DEC_POOL by the selectors.
     pre: 0 <= maxn <= 4
     pre: 0 <= n <= maxn
-    pre: 0 <= c0 < 14
-    pre: 0 <= c1 < 14
-    pre: 0 <= c2 < 14
-    pre: 0 <= c3 < 14
+    pre: 0 <= c0 < 13
+    pre: 0 <= c1 < 13
+    pre: 0 <= c2 < 13
+    pre: 0 <= c3 < 13
     post: __return__ == 'ok'
     """
-    idx = tuple(range(len(DEC_POOL)))
-    n = pick(n, (0, 1, 2, 3, 4))
-    sel = [pick(c, idx) if i < n else 0 for i, c in enumerate((c0, c1, c2, c3))]
+    n = bpick(n, 5)
+    sel = [bpick(c, len(DEC_POOL)) if i < n else 0 for i, c in enumerate((c0, c1, c2, c3))]
     with untraced():
         return _decimal_lex(''.join(DEC_POOL[i] for i in sel[:n]))
 
@@ -249,9 +260,8 @@ def decimal_to_xml_runs(neg: bool, dg: int, a: int, b: int, c: int, d: int) -> s
     pre: a + b + c + d <= 18
     post: __return__ == 'ok'
     """
-    r19 = tuple(range(19))
-    neg, dg = bool(neg), pick(dg, (0, 1, 2))
-    a, b, c, d = pick(a, r19), pick(b, r19), pick(c, r19), pick(d, (0, 1, 2))
+    neg, dg = bool(neg), bpick(dg, 3)
+    a, b, c, d = bpick(a, 19), bpick(b, 19), bpick(c, 19), bpick(d, 3)
     with untraced():
         return _decimal_to_xml_runs(neg, DIGITS[dg], a, b, c, d)
 
